@@ -169,6 +169,15 @@ def mc_deflate_core(c):
         c.model_check("MC_DeflateCore", "MC_DeflateCore_%s%s.cfg" % (z, "_big" if thorough(c) else ""), workers=6)
 
 
+def mc_lzbuf(c):
+    """the LZ code buffer (DeflateLZBuf.tla): the margin keeps every write inside, a step writes at most
+    WorstStep bytes; the mutated margin must be rejected"""
+    c.model_check("MC_DeflateLZBuf", "MC_DeflateLZBuf.cfg", workers=2)
+    r = c.model_check("MC_DeflateLZBuf", "MC_DeflateLZBuf_mut.cfg", workers=2, expect_ok=False)
+    if not r["violations"]:
+        c.tool_error("MC_DeflateLZBuf: the seeded design mutation was not rejected")
+
+
 def mc_lz(c, variants):
     """the match finder's ring / mirror / look-ahead / history model (DeflateLZ.tla); its StateRules
     are the ones the trace specification evaluates on the real compressor's state (hook)"""
@@ -180,6 +189,7 @@ def check_C02(c):
     mc_params(c)
     mc_deflate_core(c)
     mc_lz(c, ("lazy", "rle"))
+    mc_lzbuf(c)
     c.scenario("streamcomp")
     return c.finish("model_checking", RULE_COMP, TRUST)
 
